@@ -246,7 +246,7 @@ tdes_wire!(tdes_eee2_wire, TdesEee2, 16, |k, x| ue(kp(k, 0), ue(kp(k, 1), ue(kp(
 //       of the instance they are called on -- which is exactly what (1) establishes about them.  Decides the composition
 //       order of decryption against encryption and which instance is used where.
 
-//@ harness name=des_state_roundtrip prop=C01,C20 tier=quick bits=1088 stub=1 est=35 desc="W: single DES on an arbitrary subkey array: decrypt(encrypt(x)) == x and encrypt(decrypt(x)) == x for all blocks (real IP/FP/round wiring and subkey order, f uninterpreted)"
+//@ harness name=des_state_roundtrip prop=C01,C20 tier=quick bits=1088 stub=1 est=45 desc="W: single DES on an arbitrary subkey array: decrypt(encrypt(x)) == x and encrypt(decrypt(x)) == x for all blocks (real IP/FP/round wiring and subkey order, f uninterpreted)"
 verif_harness! {
     name: des_state_roundtrip,
     bytes: 128 + 8,
@@ -372,13 +372,13 @@ cuf2!(uf_f96, vuf_c05_uf_f96, u64, u64, u64, conc_f);
 pub fn stub_f96(input: u64, key: u64) -> u64 {
     uf_f96::call(input & 0xFFFF_FFFF_0000_0000, key) & 0xFFFF_FFFF_0000_0000
 }
-//@ harness name=tdes_ede3_roundtrip prop=C01 tier=quick bits=3136 stub=1 est=20 desc="W: TdesEde3 dec(enc(b)) == b and enc(dec(b)) == b on an arbitrary state (three arbitrary canonical subkey arrays: the 16 ignored low bits zero), all blocks; single DES an uninterpreted keyed bijection pair (justified by des_state_roundtrip)"
+//@ harness name=tdes_ede3_roundtrip prop=C01 tier=quick bits=3136 stub=1 est=30 desc="W: TdesEde3 dec(enc(b)) == b and enc(dec(b)) == b on an arbitrary state (three arbitrary canonical subkey arrays: the 16 ignored low bits zero), all blocks; single DES an uninterpreted keyed bijection pair (justified by des_state_roundtrip)"
 tdes_roundtrip!(tdes_ede3_roundtrip, TdesEde3 { d1, d2, d3 }, 3);
-//@ harness name=tdes_eee3_roundtrip prop=C01 tier=quick bits=3136 stub=1 est=20 desc="W: TdesEee3 round trip both orders on an arbitrary state; single DES an uninterpreted keyed bijection pair"
+//@ harness name=tdes_eee3_roundtrip prop=C01 tier=quick bits=3136 stub=1 est=30 desc="W: TdesEee3 round trip both orders on an arbitrary state; single DES an uninterpreted keyed bijection pair"
 tdes_roundtrip!(tdes_eee3_roundtrip, TdesEee3 { d1, d2, d3 }, 3);
-//@ harness name=tdes_ede2_roundtrip prop=C01 tier=quick bits=2112 stub=1 est=20 desc="W: TdesEde2 round trip both orders on an arbitrary state; single DES an uninterpreted keyed bijection pair"
+//@ harness name=tdes_ede2_roundtrip prop=C01 tier=quick bits=2112 stub=1 est=30 desc="W: TdesEde2 round trip both orders on an arbitrary state; single DES an uninterpreted keyed bijection pair"
 tdes_roundtrip!(tdes_ede2_roundtrip, TdesEde2 { d1, d2 }, 2);
-//@ harness name=tdes_eee2_roundtrip prop=C01 tier=quick bits=2112 stub=1 est=20 desc="W: TdesEee2 round trip both orders on an arbitrary state; single DES an uninterpreted keyed bijection pair"
+//@ harness name=tdes_eee2_roundtrip prop=C01 tier=quick bits=2112 stub=1 est=25 desc="W: TdesEee2 round trip both orders on an arbitrary state; single DES an uninterpreted keyed bijection pair"
 tdes_roundtrip!(tdes_eee2_roundtrip, TdesEee2 { d1, d2 }, 2);
 
 // ---------------------------------------------------------------- key relations (real code on both sides)
